@@ -79,20 +79,20 @@ exceptions: dict[type[Exception], type[Exception]] = {}
 
 def remote_exception(exc: Exception, tb) -> Exception:
     """Metaclass that wraps exception type in RemoteException"""
-    if type(exc) in exceptions:
-        typ = exceptions[type(exc)]
-        return typ(exc, tb)
-    else:
-        try:
+    try:
+        if type(exc) in exceptions:
+            typ = exceptions[type(exc)]
+        else:
             typ = type(
                 exc.__class__.__name__,
                 (RemoteException, type(exc)),
                 {"exception_type": type(exc)},
             )
             exceptions[type(exc)] = typ
-            return typ(exc, tb)
-        except TypeError:
-            return exc
+        # can also fail for a cached type (e.g. ExceptionGroup.__new__)
+        return typ(exc, tb)
+    except TypeError:
+        return exc
 
 
 try:
